@@ -45,7 +45,7 @@ func TestResolverShed(t *testing.T) {
 		req.RecursionDesired = true
 		req.SetEdns0(1232, false)
 		w := mock.NewWriter("udp", "203.0.113.77:40000")
-		ch := middleware.NewChain([]middleware.Handler{c, down})
+		ch := middleware.NewChain([]middleware.Handler{ednsLayer, c, down})
 		ch.Reset(w, req)
 		ch.Next(context.Background())
 		return readReply(w), w
